@@ -48,6 +48,14 @@ Theorem C15_default_ids : forall labels : list Z, (forall x, In x labels -> 0 <=
 Proof. exact default_ids. Qed.
 Print Assumptions C15_default_ids.
 
+(* ... and the call with cluster_ids=None is the call with that list *)
+Theorem C15_default_call : forall t labels rate bin win symm dur,
+  correlograms t labels None rate bin win symm =
+  correlograms t labels (Some (clusters_of labels None)) rate bin win symm /\
+  firing_rate labels None bin dur = firing_rate labels (Some (clusters_of labels None)) bin dur.
+Proof. intros. split; reflexivity. Qed.
+Print Assumptions C15_default_call.
+
 (* clusters in the caller's order: the entry for a pair of cluster ids does not depend on which other
    ids the caller lists nor on the order -- it sits at the positions the two ids have in the caller's list *)
 Theorem C15_order : forall (t labels ids ids' : list Z) (rate bin win : Q) (C C' : cube),
